@@ -734,6 +734,10 @@ def specializeCommands(
         op1, args1 = commands[i - 1]
         op2, args2 = commands[i]
         new_op = None
+        # stackUse is that of op2. Unless the two get merged below, the next
+        # round (also after one of the `continue`s) has to see that of op1.
+        args2StackUse = stackUse
+        args1StackUse = stackUse = _argsStackUse(args1)
 
         # Merge logic...
         if {op1, op2} <= {"rlineto", "rrcurveto"}:
@@ -780,14 +784,11 @@ def specializeCommands(
 
         # Make sure the stack depth does not exceed (maxstack - 1), so
         # that subroutinizer can insert subroutine calls at any point.
-        args1StackUse = _argsStackUse(args1)
-        combinedStackUse = max(args1StackUse, len(args1) + stackUse)
+        combinedStackUse = max(args1StackUse, len(args1) + args2StackUse)
         if new_op and combinedStackUse < maxstack:
             commands[i - 1] = (new_op, args1 + args2)
             del commands[i]
             stackUse = combinedStackUse
-        else:
-            stackUse = args1StackUse
 
     # 6. Resolve any remaining made-up operators into real operators.
     for i in range(len(commands)):
